@@ -135,6 +135,19 @@ def collect(cfg):
             rec["partial"] = {"e0": e0, "head": head, "e_next": e_next, "next": _ints(s),
                               "epoch_after": int(s.epoch)}
             rec["n_epochs"] += 2
+        # ---- a consumer that pulls exactly len(s) indices per epoch (never provoking StopIteration): every
+        # index of the epoch has been yielded, so the epoch is over and the next pull is the next epoch
+        if p is not None:
+            s = _make(cfg, p[0])
+            rec["n_ctor"] += 1
+            pulls = []
+            for _ in range(2):
+                n = len(s)
+                it = iter(s)
+                pulls.append([int(next(it)) for _ in range(n)])
+                del it
+            rec["exact"] = {"e0": p[0], "pulls": pulls}
+            rec["n_epochs"] += 2
         # ---- two live iterators of one object do not disturb each other
         il = cfg.get("interleave")
         if il is not None:
